@@ -133,6 +133,14 @@ static std::map<int, std::unique_ptr<wrapper_cpp::WorldBuilderWrapper>> cppworld
 
 static std::string unders(std::string s) { for (char &c : s) if (c == '_') c = ' '; return s; }
 
+static std::string unesc(std::string t)
+{
+  // %20 stands for a blank inside a path token of the line protocol
+  size_t p;
+  while ((p = t.find("%20")) != std::string::npos) t.replace(p, 3, " ");
+  return t;
+}
+
 static std::string run(const std::string &line)
 {
   std::istringstream in(line);
@@ -271,6 +279,7 @@ static std::string run(const std::string &line)
       // cworld <slot> <file> <has_dir: 0|1|null> <dir|null> <seed>
       int slot; std::string file, hd, dir; unsigned long seed;
       in >> slot >> file >> hd >> dir >> seed;
+      file = unesc(file); dir = unesc(dir);
       bool has = hd == "1";
       void *ptr = nullptr;
       if (cworlds.count(slot)) { release_world(cworlds[slot]); cworlds.erase(slot); }
@@ -283,6 +292,7 @@ static std::string run(const std::string &line)
     {
       int slot; std::string file, hd, dir; unsigned long seed;
       in >> slot >> file >> hd >> dir >> seed;
+      file = unesc(file); dir = unesc(dir);
       cppworlds.erase(slot);
       cppworlds[slot] = std::unique_ptr<wrapper_cpp::WorldBuilderWrapper>(new wrapper_cpp::WorldBuilderWrapper(file, hd == "1", dir == "null" ? "" : dir, seed));
       return "ok";
@@ -292,6 +302,7 @@ static std::string run(const std::string &line)
       // native world with all constructor arguments
       int slot; std::string file, hd, dir; unsigned long seed;
       in >> slot >> file >> hd >> dir >> seed;
+      file = unesc(file); dir = unesc(dir);
       worlds.erase(slot);
       worlds[slot] = std::unique_ptr<World>(new World(file, hd == "1", dir == "null" ? "" : dir, seed));
       return "ok";
@@ -457,8 +468,10 @@ static std::string run(const std::string &line)
       Objects::ClosestPointOnCurve r = bc.closest_point_on_curve_segment(Point<2>(px, py, c));
       return vec({r.distance, r.parametric_fraction, static_cast<double>(r.index), r.point[0], r.point[1], r.normal[0], r.normal[1]});
     }
-  if (cmd == "kd" || cmd == "kdq")
+  if (cmd == "kd" || cmd == "kdq" || cmd == "kds")
     {
+      // kds: the query point carries the spherical tag, as Objects::Surface hands it over in spherical worlds
+      const CoordinateSystem qcs = cmd == "kds" ? spherical : cartesian;
       // kd n x y ... px py  -> node order (index x y)* then min_index min_distance visited(index dist)*
       size_t n; in >> n;
       std::vector<KDTree::Node> nodes;
@@ -466,9 +479,9 @@ static std::string run(const std::string &line)
       KDTree::KDTree tree(nodes);
       tree.create_tree(0, nodes.size()-1, false);
       double px = rd(in), py = rd(in);
-      KDTree::IndexDistances r = tree.find_closest_points(Point<2>(px, py, cartesian));
+      KDTree::IndexDistances r = tree.find_closest_points(Point<2>(px, py, qcs));
       std::string s = "ok";
-      if (cmd == "kd")
+      if (cmd == "kd" || cmd == "kds")
         {
           for (auto &nd : tree.get_nodes()) { s += " " + std::to_string(nd.index) + " " + hx(nd.x) + " " + hx(nd.y); }
           s += " |";
@@ -477,7 +490,7 @@ static std::string run(const std::string &line)
       for (auto &v : r.vector) s += " " + std::to_string(v.index) + " " + hx(v.distance);
       return s;
     }
-  if (cmd == "kd1")
+  if (cmd == "kd1" || cmd == "kd1s")
     {
       // kd1 n x y ... px py  -> index and distance of KDTree::find_closest_point (the single-answer search)
       size_t n; in >> n;
@@ -486,7 +499,7 @@ static std::string run(const std::string &line)
       KDTree::KDTree tree(nodes);
       tree.create_tree(0, nodes.size()-1, false);
       double px = rd(in), py = rd(in);
-      KDTree::IndexDistance r = tree.find_closest_point(Point<2>(px, py, cartesian));
+      KDTree::IndexDistance r = tree.find_closest_point(Point<2>(px, py, cmd == "kd1s" ? spherical : cartesian));
       const auto &nd = tree.get_nodes()[r.index];
       return "ok " + hx(static_cast<double>(nd.index)) + " " + hx(r.distance) + " " + hx(nd.x) + " " + hx(nd.y);
     }
